@@ -38,9 +38,14 @@ def gen_loop(rng, lbs=(0,), steps=(1,), min_trips_stages=True):
     nbuf = nstages - 1
     two_loads = nstages >= 3 and rng.random() < 0.4
     two_stores = rng.random() < 0.1
+    # a bypass / residual operand: loaded in stage 0, read again only in the LAST stage (two or three stages later): two parity-selected
+    # copies do not cover that distance, the loop has to be refused or given enough copies
+    bypass = nstages >= 3 and rng.random() < 0.15
     pre = [f"    %buf{j} = memref.alloc() : {BUF}" for j in range(nbuf)]
     if two_loads:
         pre.append(f"    %bufx = memref.alloc() : {BUF}")
+    if bypass:
+        pre.append(f"    %bufy = memref.alloc() : {BUF}")
     emit(2, f"scf.for %i = %lb to %ub step %st {{")
     # index computations: the tile index is the induction variable itself, or is computed from it (flattened 2-D traversal with
     # row = i / K, col = i % K; input tile re-used every K iterations)
@@ -67,11 +72,15 @@ def gen_loop(rng, lbs=(0,), steps=(1,), min_trips_stages=True):
     # stage 0: load; middle stages: compute or move; last stage: store
     if two_loads:
         emit(3, f"%in2 = memref.subview %C[%i, 0] [1, 8] [1, 1] : memref<16x8xi32> to {TILE}")
-    if two_stores:
+    if two_stores and not bypass:
         emit(3, f"%out2 = memref.subview %D[%i, 0] [1, 8] [1, 1] : memref<16x8xi32> to {TILE}")
+    if bypass:
+        emit(3, f"%in3 = memref.subview %D[%i, 0] [1, 8] [1, 1] : memref<16x8xi32> to {TILE}")
     emit(3, f'"memref.copy"(%in, %buf0) {{tag = {t()} : i32}} : ({TILE}, {BUF}) -> ()')
     if two_loads:
         emit(3, f'"memref.copy"(%in2, %bufx) {{tag = {t()} : i32}} : ({TILE}, {BUF}) -> ()')
+    if bypass:
+        emit(3, f'"memref.copy"(%in3, %bufy) {{tag = {t()} : i32}} : ({TILE}, {BUF}) -> ()')
     emit(3, '"snax.cluster_sync_op"() : () -> ()')
     for j in range(1, nstages - 1):
         if j == 1 and two_loads:
@@ -88,14 +97,19 @@ def gen_loop(rng, lbs=(0,), steps=(1,), min_trips_stages=True):
             emit(3, f'"memref.copy"(%buf{j - 1}, %buf{j}) {{tag = {t()} : i32}} : ({BUF}, {BUF}) -> ()')
         emit(3, '"snax.cluster_sync_op"() : () -> ()')
     last = nstages - 2
-    if rng.random() < 0.5:
+    if bypass:
+        emit(3, f'linalg.generic {{indexing_maps = [{ID2}, {ID2}, {ID2}], iterator_types = ["parallel", "parallel"]}} ins(%buf{last}, %bufy : {BUF}, {BUF}) outs(%out : {TILE}) attrs = {{tag = {t()} : i32}} {{')
+        emit(3, "^bb0(%x : i32, %y : i32, %z : i32):")
+        emit(4, "linalg.yield %x : i32")
+        emit(3, "}")
+    elif rng.random() < 0.5:
         emit(3, f'"memref.copy"(%buf{last}, %out) {{tag = {t()} : i32}} : ({BUF}, {TILE}) -> ()')
     else:
         emit(3, f'linalg.generic {{indexing_maps = [{ID2}, {ID2}], iterator_types = ["parallel", "parallel"]}} ins(%buf{last} : {BUF}) outs(%out : {TILE}) attrs = {{tag = {t()} : i32}} {{')
         emit(3, "^bb0(%x : i32, %y : i32):")
         emit(4, "linalg.yield %x : i32")
         emit(3, "}")
-    if two_stores:
+    if two_stores and not bypass:
         emit(3, f'"memref.copy"(%buf{last}, %out2) {{tag = {t()} : i32}} : ({BUF}, {TILE}) -> ()')
     if rng.random() < 0.6:
         emit(3, '"snax.cluster_sync_op"() : () -> ()')      # (the barrier after the last stage may be left to the next iteration's first one)
@@ -125,7 +139,7 @@ def gen_loop(rng, lbs=(0,), steps=(1,), min_trips_stages=True):
 def run(pid: str, tier: str, seed: int, selftest=False, replay=None) -> int:
     rep = Report(pid, tier, seed)
     known = KnownFindings()
-    n = 220 if tier == "quick" else 3000
+    n = 400 if tier == "quick" else 3000
     xk = xdma_kernel_table()
     witnesses = KnownFindings().witnesses(pid)
     unsafe_known = True if os.environ.get("C15_FORCE_SAFE") else any(w.get("carve") == "lb0_step1_trips" for w in witnesses)
